@@ -420,6 +420,28 @@ class FactBase:
                               (pattern, len(r), [f.id for f in r][:6]))
         return r[0]
 
+    def methods(self, name, impl_for=None, trait=None, crate=None):
+        """Assoc fns by name, optionally restricted by regexes on the impl's self type / trait."""
+        out = []
+        for f in self.fns.values():
+            if f.name != name or f.j.get("defkind") != "AssocFn":
+                continue
+            if crate and f.crate != crate:
+                continue
+            if impl_for is not None and not (f.impl_for and re.search(impl_for, f.impl_for)):
+                continue
+            if trait is not None and not (f.trait and re.search(trait, f.trait)):
+                continue
+            out.append(f)
+        return out
+
+    def method(self, name, impl_for=None, trait=None, crate=None):
+        r = self.methods(name, impl_for, trait, crate)
+        if len(r) != 1:
+            raise AnchorError("anchor method %s (impl_for=%s trait=%s): expected one, found %d" %
+                              (name, impl_for, trait, len(r)))
+        return r[0]
+
     def closures_of(self, fn):
         pre = fn.id + "::{"
         return [f for f in self.fns.values() if f.id.startswith(pre)]
